@@ -1360,12 +1360,14 @@ func blockAlwaysReplies(p *core.Prog, b *ssa.BasicBlock, funnels map[*ssa.Functi
 }
 
 // c07ReplySubjectNonEmpty: a message without a reply subject never becomes a
-// request: in every function that receives a message first (the service's
-// message handler, the query request handler) every use of the message other
-// than reading its members - queueing it, storing it into a request, handing
-// it on - is behind the "reply subject is not empty" edge. Everything that
-// later publishes on the request's reply subject (replies, and the timeout
-// pre-response, which does not go through the reply funnel) relies on it.
+// request: starting from every function that is the first to receive a
+// message (the service's message handler, the query listener's handler), each
+// use of the message other than reading its members is either behind the
+// "reply subject is not empty" edge, or hands the message on to a function of
+// the package (directly or from a queued closure) that is judged the same way.
+// Storing it into a request, or handing it to anything else, needs the edge.
+// Everything that later publishes on the request's reply subject (replies, and
+// the timeout pre-response, which bypasses the reply funnel) relies on it.
 func c07ReplySubjectNonEmpty(r *core.Run, rule string, root []*ssa.Function) {
 	p := r.P
 	msgParam := func(fn *ssa.Function) *ssa.Parameter {
@@ -1376,6 +1378,122 @@ func c07ReplySubjectNonEmpty(r *core.Run, rule string, root []*ssa.Function) {
 			}
 			if nm, isN := pt.Elem().(*types.Named); isN && nm.Obj().Name() == "Msg" && nm.Obj().Pkg() != nil && strings.HasSuffix(nm.Obj().Pkg().Path(), "nats.go") {
 				return prm
+			}
+		}
+		return nil
+	}
+	guarded := func(in ssa.Instruction) bool {
+		for _, ed := range dominatingEdges(in) {
+			for _, ft := range edgeFacts(ed) {
+				bo, ok := ft.V.(*ssa.BinOp)
+				if !ok || (bo.Op != token.EQL && bo.Op != token.NEQ) {
+					continue
+				}
+				x, y := bo.X, bo.Y
+				if _, isC := core.ConstString(x); isC {
+					x, y = y, x
+				}
+				k, isC := core.ConstString(y)
+				f, isF := core.LoadedField(x)
+				if !isC || k != "" || !isF || f.Name != "Reply" {
+					continue
+				}
+				if (bo.Op == token.NEQ) == ft.True {
+					return true
+				}
+			}
+		}
+		return false
+	}
+	// uses of a value holding the message that hand it on (reads of its members aside), seen
+	// through the cell go/ssa spills a captured variable into
+	var usesOf func(v ssa.Value, d int) []ssa.Instruction
+	usesOf = func(v ssa.Value, d int) []ssa.Instruction {
+		var out []ssa.Instruction
+		if v.Referrers() == nil || d > 4 {
+			return nil
+		}
+		for _, rf := range *v.Referrers() {
+			switch x := rf.(type) {
+			case *ssa.FieldAddr, *ssa.DebugRef:
+				continue
+			case *ssa.Store:
+				if al, isAl := x.Addr.(*ssa.Alloc); isAl && x.Val == v {
+					if al.Referrers() != nil {
+						for _, r2 := range *al.Referrers() {
+							switch y := r2.(type) {
+							case *ssa.UnOp:
+								out = append(out, usesOf(y, d+1)...)
+							case *ssa.Store, *ssa.DebugRef:
+							default:
+								out = append(out, r2)
+							}
+						}
+					}
+					continue
+				}
+				out = append(out, rf)
+			case *ssa.UnOp: // load through a captured cell
+				out = append(out, usesOf(x, d+1)...)
+			default:
+				out = append(out, rf)
+			}
+		}
+		return out
+	}
+	busy := map[*ssa.Function]bool{}
+	// judge: the first unguarded use in fn (of the value v holding the message) that neither has the
+	// edge nor hands the message to a function of the package that is fine itself
+	var judge func(fn *ssa.Function, v ssa.Value, d int) ssa.Instruction
+	judge = func(fn *ssa.Function, v ssa.Value, d int) ssa.Instruction {
+		if d > 5 {
+			return nil
+		}
+		for _, use := range usesOf(v, 0) {
+			if guarded(use) {
+				continue
+			}
+			switch x := use.(type) {
+			case ssa.CallInstruction:
+				cal := x.Common().StaticCallee()
+				if cal != nil && cal.Pkg == fn.Pkg && len(cal.Blocks) > 0 && !core.IsGo(x) {
+					if q := msgParam(cal); q != nil && !busy[cal] {
+						busy[cal] = true
+						bad := judge(cal, q, d+1)
+						delete(busy, cal)
+						if bad == nil {
+							continue
+						}
+						return bad
+					}
+				}
+				return use
+			case *ssa.MakeClosure:
+				cl, _ := x.Fn.(*ssa.Function)
+				if cl == nil {
+					return use
+				}
+				var bad ssa.Instruction
+				for i, b := range x.Bindings {
+					holds := b == v
+					if al, isAl := b.(*ssa.Alloc); isAl && al.Referrers() != nil {
+						for _, rf := range *al.Referrers() {
+							if st, ok := rf.(*ssa.Store); ok && st.Addr == ssa.Value(al) && st.Val == v {
+								holds = true
+							}
+						}
+					}
+					if holds && i < len(cl.FreeVars) {
+						if b2 := judge(cl, cl.FreeVars[i], d+1); b2 != nil {
+							bad = b2
+						}
+					}
+				}
+				if bad != nil {
+					return bad
+				}
+			default:
+				return use
 			}
 		}
 		return nil
@@ -1400,65 +1518,15 @@ func c07ReplySubjectNonEmpty(r *core.Run, rule string, root []*ssa.Function) {
 		if !entry || len(callers) == 0 {
 			continue
 		}
-		// the uses of the message that hand it on (reads of its members aside), seen through the
-		// cell go/ssa spills a captured parameter into
-		var uses []ssa.Instruction
-		var collect func(v ssa.Value, d int)
-		collect = func(v ssa.Value, d int) {
-			if v.Referrers() == nil || d > 4 {
-				return
-			}
-			for _, rf := range *v.Referrers() {
-				switch x := rf.(type) {
-				case *ssa.FieldAddr, *ssa.DebugRef:
-					continue
-				case *ssa.Store:
-					if al, isAl := x.Addr.(*ssa.Alloc); isAl && x.Val == v {
-						if al.Referrers() != nil {
-							for _, r2 := range *al.Referrers() {
-								switch y := r2.(type) {
-								case *ssa.UnOp:
-									collect(y, d+1)
-								case *ssa.Store, *ssa.DebugRef:
-								default:
-									uses = append(uses, r2)
-								}
-							}
-						}
-						continue
-					}
-					uses = append(uses, rf)
-				default:
-					uses = append(uses, rf)
-				}
-			}
+		n++
+		busy[fn] = true
+		bad := judge(fn, msg, 0)
+		delete(busy, fn)
+		where := p.Pos(fn.Pos())
+		if bad != nil {
+			where = p.InstrPos(bad)
 		}
-		collect(msg, 0)
-		for _, rf := range uses {
-			n++
-			guarded := false
-			for _, ed := range dominatingEdges(rf) {
-				for _, ft := range edgeFacts(ed) {
-					bo, ok := ft.V.(*ssa.BinOp)
-					if !ok || (bo.Op != token.EQL && bo.Op != token.NEQ) {
-						continue
-					}
-					x, y := bo.X, bo.Y
-					if _, isC := core.ConstString(x); isC {
-						x, y = y, x
-					}
-					k, isC := core.ConstString(y)
-					f, isF := core.LoadedField(x)
-					if !isC || k != "" || !isF || f.Name != "Reply" {
-						continue
-					}
-					if (bo.Op == token.NEQ) == ft.True {
-						guarded = true
-					}
-				}
-			}
-			r.Check(guarded, rule, core.FuncName(fn), "request-accepted-only-with-a-reply-subject", p.InstrPos(rf), "the message is used only on the edge where its reply subject is not empty", "a message without a reply subject is turned into a request: the response, or what the handler publishes on the request's reply subject outside the reply funnel (the timeout pre-response), goes out on the empty subject - not a valid NATS subject and none of the documented forms")
-		}
+		r.Check(bad == nil, rule, core.FuncName(fn), "request-accepted-only-with-a-reply-subject", where, "the message is turned into a request only on the edge where its reply subject is not empty", "a message without a reply subject is turned into a request: the response, or what the handler publishes on the request's reply subject outside the reply funnel (the timeout pre-response), goes out on the empty subject - not a valid NATS subject and none of the documented forms")
 	}
 	if n == 0 {
 		r.Unres(rule, "message-handler", "no function receives a message and hands it on")
